@@ -137,7 +137,7 @@ func c06Cfg(c *Ctx) *RuleResult {
 			problems = append(problems, fmt.Sprintf("the reaper fails work with %v, documented: %s", sortedKeys(codes), w[1]))
 		}
 		if a.owner == "sizeClassQueue" {
-			gs := flattenGuards(GuardsOf(info, a.u.Decl.Body, a.call))
+			gs := guardsWithCallers(p.UnitsIn(schedPkg), a.u, a.call)
 			empty, removable := false, false
 			for _, g := range gs {
 				s := exprStr(g.Cond)
